@@ -894,7 +894,12 @@ impl<'a> Runtime<'a> {
 
         let func_name = match callee {
             Expr::Var(name, ..) => *name,
-            _ => unreachable!("Semantic analysis guarantees callee is variable or member"),
+            // Functions are not values: `f()(1)` or `a[0](2)` calls whatever the callee
+            // evaluates to, which can never be a function.
+            _ => {
+                self.eval_expr(callee)?;
+                return Err(RuntimeError::new(RuntimeErrorKind::TypeMismatch, callee.span()));
+            }
         };
 
         if let Some(builtin) = GlobalBuiltin::from_name(func_name) {
